@@ -127,7 +127,7 @@ theorem protobufs_halts (b : Bytes) : loopHalts protobufsStep (b.length + 1) b =
   loop_halts protobufsStep_consumes _ b (by omega)
 
 /-- two length-prefixed messages, then a length that runs past the end -/
-example : loopSteps protobufsStep 9 [1, 7, 2, 7, 7, 5, 7] = 3 := by decide
+example : loopSteps protobufsStep 9 [1, 8, 2, 8, 7, 5, 8] = 3 := by decide
 
 /-- **TLV8 `read_tlv`**: every item takes at least its tag and length byte -/
 theorem readTlv_steps (data : Bytes) : tlvSteps data ≤ data.length / 2 + 1 := tlvSteps_le data
